@@ -2,11 +2,18 @@
    The byte classes AppendSENString uses (regenerated from string.go) and the SEN parser's mode
    tables (regenerated from sen/maps.go) agree: every byte the writer leaves bare continues a
    token for the parser, and every first byte it leaves bare starts a token - except '-' and
-   '+', which is the recorded known finding C10-sign-leading-string. The tree-level round trip
-   is decided by correspondence (sen.Parse(sen.String(v)) = v on the real code). *)
+   '+', which is the recorded known finding C10-sign-leading-string.
+   String clause, whole strings (Sen/SenStr.v, Sen/SenRT.v): for EVERY byte string and both HTML
+   settings the string-value reader of sen.Parser (over the regenerated mode tables) reads what
+   AppendSENString wrote back as the sanitized string, with exactly the two exceptions of the
+   recorded finding (sign-leading bare tokens; reserved words at a value position), which are
+   proved to be real exceptions of the model (C10_*_refuted). Numbers, containers and the
+   layout around values are decided by correspondence (sen.Parse(sen.String(v)) = v on the real
+   code). *)
 From Coq Require Import Init.Byte ZArith List Bool.
-Require Import Ojg.Base.Bytes Ojg.Sen.SenString.
+Require Import Ojg.Base.Bytes Ojg.Json.Writer Ojg.Sen.SenString Ojg.Sen.SenStr Ojg.Sen.SenRT.
 Require Ojg.Gen.SenMaps.
+Import ListNotations.
 
 Theorem C10_bare_byte_is_token_byte : forall html b,
   bare_class html b = true -> is_tok (SenMaps.tab_tokenMap b) = true.
@@ -18,3 +25,57 @@ Proof. exact bare_first_starts_token. Qed.
 
 Print Assumptions C10_bare_byte_is_token_byte.
 Print Assumptions C10_bare_first_starts_token.
+
+
+(* ---- whole strings *)
+(* a string written in quotes is read back as the (sanitized) string, whatever follows *)
+Theorem C10_quoted_string_round_trip : forall html s rest,
+  sen_quoted html s = true ->
+  sen_read (sen_string html s ++ rest) = Some (Str (sanitize s), rest).
+Proof. exact sen_quoted_round_trip. Qed.
+
+(* a string written bare is written unchanged, contains nothing that had to be replaced, and is
+   read back as one token ending at the terminator - unless it starts with a sign *)
+Theorem C10_bare_string_round_trip : forall html b0 s' t rest,
+  let s := b0 :: s' in
+  sen_quoted html s = false -> b0 <> x2d -> b0 <> x2b ->
+  tok_end (SenMaps.tab_tokenMap t) = true ->
+  sen_string html s = s /\ sanitize s = s /\
+  sen_read (sen_string html s ++ t :: rest) = Some (Tok s, t :: rest).
+Proof. exact sen_bare_round_trip. Qed.
+
+(* strings stay strings: as a key always, as a value unless spelled like a reserved word *)
+Theorem C10_string_round_trip : forall html s t rest,
+  tok_end (SenMaps.tab_tokenMap t) = true ->
+  sen_quoted html s = true \/ sign_leading s = false ->
+  exists o, sen_read (sen_string html s ++ t :: rest) = Some (o, t :: rest) /\
+            key_of o = sanitize s /\
+            (sen_quoted html s = true \/ reserved s = false -> val_of o = SvStr (sanitize s)).
+Proof. exact sen_string_round_trip. Qed.
+
+(* the two exceptions are real (the recorded finding C10-bare-reserved-or-sign-string, in the model):
+   "true" is written bare and read as the boolean; "-a" is written bare and is not a token *)
+Theorem C10_reserved_value_refuted :
+  exists s, sen_quoted false s = false /\ sign_leading s = false /\
+    match sen_read (sen_string false s ++ [x5d]) with Some (o, _) => val_of o <> SvStr (sanitize s) | None => False end.
+Proof. exists [x74; x72; x75; x65]. vm_compute. repeat split; discriminate. Qed.
+Theorem C10_sign_leading_refuted :
+  exists s, sen_quoted false s = false /\ sen_read (sen_string false s ++ [x5d]) = None.
+Proof. exists [x2d; x61]. vm_compute. split; reflexivity. Qed.
+
+(* non-vacuity: a string with a quote, a control byte, a two-byte rune, an invalid byte, U+2028
+   and an apostrophe is quoted and comes back sanitized; a bare one satisfies the hypotheses *)
+Example C10_quoted_example :
+  let s := [x61; x22; x01; xc3; xa9; xff; xe2; x80; xa8; x27; x0a] in
+  sen_quoted true s = true /\
+  sen_read (sen_string true s ++ [x5d]) = Some (Str [x61; x22; x01; xc3; xa9; xef; xbf; xbd; xe2; x80; xa8; x27; x0a], [x5d]).
+Proof. vm_compute. split; reflexivity. Qed.
+Example C10_bare_example :
+  let s := [x61; x2d; xc3; xa9; x31] in
+  sen_quoted false s = false /\ sign_leading s = false /\ reserved s = false /\ tok_end (SenMaps.tab_tokenMap x3a) = true /\
+  sen_read (sen_string false s ++ [x3a; x31]) = Some (Tok s, [x3a; x31]).
+Proof. vm_compute. repeat split; reflexivity. Qed.
+
+Print Assumptions C10_quoted_string_round_trip.
+Print Assumptions C10_bare_string_round_trip.
+Print Assumptions C10_string_round_trip.
